@@ -184,26 +184,49 @@ def r2(ctx, cfg):
 
 
 def r3(ctx, cfg):
+    """"validation accepts exactly strings that decode under that codec with that prefix and returns them unchanged": what
+    addr_validate answers is `humanize(canonicalize(input)?)?` - and only when that spelling *is* the input.  `CheckedHrpstring`
+    checks the checksum, not that the padding bits of the last 5-bit group are zero nor that there is no surplus group, so
+    several spellings decode to the same bytes; re-encoding them and handing back the result accepts a malformed string and
+    returns a different one."""
     F, P = cfg.facts, cfg.prov
     R = "C18.R3"
     key = API + "addr_validate"
     f = ctx.need_fn(R, key)
     if f is None:
         return
-    ret = peel(P.ret(f))
-    rest = [o for o in alts(ret) if not (o[0] == "call" and o[1].endswith("FromResidual::from_residual"))]
-    ok = len(rest) == 1 and rest[0][0] == "call" and rest[0][1] == "cosmwasm_std::Api::addr_humanize" and is_param(rest[0][2][0], "self")
-    if ok:
-        inner = peel(rest[0][2][1])
-        ok = inner[0] == "ok" and peel(inner[1])[0] == "call" and peel(inner[1])[1] == "cosmwasm_std::Api::addr_canonicalize" and \
+
+    def normalized(o):
+        o = peel(o)
+        if o[0] == "ok":
+            o = peel(o[1])
+        if not (o[0] == "call" and o[1] == "cosmwasm_std::Api::addr_humanize" and is_param(o[2][0], "self")):
+            return False
+        inner = peel(o[2][1])
+        return inner[0] == "ok" and peel(inner[1])[0] == "call" and peel(inner[1])[1] == "cosmwasm_std::Api::addr_canonicalize" and \
             is_param(peel(inner[1])[2][0], "self") and is_param(peel(inner[1])[2][1], "input")
-        # both resolved to this impl
-        for bid, t in f.calls():
-            c = t["callee"]
-            if c.get("trait") == "cosmwasm_std::Api":
-                ok = ok and (c.get("resolved") or "").startswith("<api::MockApiBech as cosmwasm_std::Api>::")
-    ctx.ob(R, key, "validate=humanize(canonicalize(input)?)", ok, "addr_validate returns %s" % fmt(ret)[:160], fn=f,
+
+    def spelled(o):
+        """the characters of the normalized address: `x.as_str()`, `x.to_string()`, `&*x`, `x.as_ref()`, x itself"""
+        o = peel(o)
+        while o[0] == "call" and o[1].rsplit("::", 1)[-1] in ("as_str", "to_string", "as_ref", "deref", "into_string", "borrow") and o[2]:
+            o = peel(o[2][0])
+        return normalized(o)
+    vals = q.success_payloads(P, f)
+    ok = bool(vals) and all(normalized(v) or (peel(v)[0] == "call" and peel(v)[1].endswith("Addr::unchecked") and is_param(peel(v)[2][0], "input")) for v in vals)
+    # both Api calls resolved to this impl
+    for bid, t in f.calls():
+        c = t["callee"]
+        if c.get("trait") == "cosmwasm_std::Api":
+            ok = ok and (c.get("resolved") or "").startswith("<api::MockApiBech as cosmwasm_std::Api>::")
+    ctx.ob(R, key, "validate=humanize(canonicalize(input)?)", ok, "addr_validate answers %s" % [fmt(peel(v))[:120] for v in vals], fn=f,
            sample="self.addr_humanize(&self.addr_canonicalize(input)?)")
+    out = q.successes_outside(P, f, lambda cs: q.has_cond(cs, "eq", pol=True, arg_pred=lambda a: len(a) == 2 and any(is_param(x, "input") for x in a) and
+                                                             any(spelled(x) for x in a)))
+    ctx.ob(R, key, "accepted-only-as-spelled", not out,
+           "addr_validate can answer Ok at block(s) %s without having compared the input with its normalized spelling: a string with non-zero padding "
+           "bits (or a surplus 5-bit group) and a correct checksum is accepted and a different string is returned" % out, fn=f,
+           sample="every Ok dominated by input == normalized")
 
 
 def r4(ctx, cfg):
